@@ -31,20 +31,27 @@ type Case struct {
 	Filter       string     `json:"filter"` // the -x argument, split at commas as cmd/arch.go does
 	MergeHeader  bool       `json:"mergeHeader"`
 	MergePackage bool       `json:"mergePackage"`
+	// a second -x argument: the same graph is laid out again with it, and then once more with
+	// the first one ("" = everything, which is also what older replay files get)
+	Filter2 string `json:"filter2,omitempty"`
+	// cli sub-check only: leave -x out when the filter is empty (the flag's default);
+	// put deps.json somewhere else and name it with -d
+	OmitX    bool   `json:"omitX,omitempty"`
+	DepsPath string `json:"depsPath,omitempty"`
 }
 
 // ---- generator ---------------------------------------------------------------------------
 
 // small alphabets: concatenations such as "a"+"bc" == "ab"+"c" are reachable
 var segs = []string{"a", "ab", "bc", "c", "b", "abc"}
-var classNames = []string{"A", "B", "C", "D", "E", "Main", "MainFrame", "Domain", "AB"}
+var classNames = []string{"A", "B", "C", "D", "E", "Main", "MainFrame", "Domain", "AB", "AppMain", "main"}
 var methodNames = []string{"run", "m1", "m2", "main", "mainLoop", "remain", "domain"}
 var extTypes = []string{"java.util.List", "java.util.ArrayList", "org.ext.Base", "org.ext.api.Port", "java.io.Serializable"}
 var bareTypes = []string{"Base", "Runnable", "T"}
 
 func pkgGen(maxDepth int) *rapid.Generator[string] {
 	return rapid.Custom(func(t *rapid.T) string {
-		depth := rapid.SampledFrom([]int{1, 1, 1, 2, 2, 3, 4}).Draw(t, "depth")
+		depth := rapid.SampledFrom([]int{1, 1, 1, 1, 2, 2, 2, 3, 4, 7}).Draw(t, "depth")
 		if depth > maxDepth {
 			depth = maxDepth
 		}
@@ -73,6 +80,7 @@ type methodDraw struct {
 
 type classDraw struct {
 	pkg, name string
+	kind      string // "" (a class), "Interface"
 	spread    bool      // take the i-th package of the pool while there are unused ones
 	extend    []refDraw // 0 or 1
 	impls     []refDraw
@@ -92,6 +100,7 @@ func classGen(pool []string) *rapid.Generator[classDraw] {
 	return rapid.Custom(func(t *rapid.T) classDraw {
 		c := classDraw{pkg: rapid.SampledFrom(pool).Draw(t, "pkg"), name: rapid.SampledFrom(classNames).Draw(t, "name")}
 		c.spread = rapid.IntRange(0, 3).Draw(t, "anyPkg") < 3
+		c.kind = rapid.SampledFrom([]string{"", "", "", "Interface"}).Draw(t, "kind")
 		if rapid.IntRange(0, 3).Draw(t, "hasExtend") == 3 {
 			c.extend = []refDraw{refGen.Draw(t, "extend")}
 		}
@@ -104,7 +113,13 @@ func classGen(pool []string) *rapid.Generator[classDraw] {
 
 func gen(t *rapid.T) Case {
 	var pool []string
-	if rapid.IntRange(0, 3).Draw(t, "template") == 3 {
+	template := rapid.IntRange(0, 5).Draw(t, "template")
+	if template == 5 {
+		// packages below a common stem of 5-6 segments: full type names of 7-9 segments, the
+		// lengths around MergePackageFunc's cut at 7
+		stem := strings.Join(rapid.SliceOfN(rapid.SampledFrom(segs), 5, 6).Draw(t, "stem"), ".")
+		pool = []string{stem + ".a", stem + ".ab", stem + ".a.c", stem + ".ab.c", stem}
+	} else if template >= 3 {
 		// packages P.a, P.ab, bc.Q, c.Q: the shapes whose merged names concatenate alike
 		p, q := "", ""
 		if rapid.Bool().Draw(t, "prefix") {
@@ -115,7 +130,7 @@ func gen(t *rapid.T) Case {
 		}
 		pool = []string{p + "a", p + "ab", "bc" + q, "c" + q}
 	} else {
-		pool = rapid.SliceOfN(pkgGen(4), rapid.IntRange(1, 3).Draw(t, "minPkgs"), 4).Draw(t, "pkgs")
+		pool = rapid.SliceOfN(pkgGen(8), rapid.IntRange(1, 3).Draw(t, "minPkgs"), 4).Draw(t, "pkgs")
 	}
 	var m mgen.Model
 	var draws []classDraw
@@ -129,7 +144,7 @@ func gen(t *rapid.T) Case {
 		}
 		seen[d.pkg+"."+d.name] = true
 		draws = append(draws, d)
-		m.Classes = append(m.Classes, mgen.Class{Pkg: d.pkg, Name: d.name})
+		m.Classes = append(m.Classes, mgen.Class{Pkg: d.pkg, Name: d.name, Type: d.kind})
 	}
 	var all []string
 	for _, c := range m.Classes {
@@ -197,8 +212,8 @@ func gen(t *rapid.T) Case {
 			mm := mgen.Method{Name: md.name}
 			for _, cd := range md.calls {
 				pkg, node := resolve(cd.ref, *c)
-				if pkg == "" {
-					node = "" // unresolved receiver
+				if pkg == "" && cd.ref.aux%2 == 0 {
+					node = "" // unresolved receiver (otherwise a receiver type without package)
 				}
 				mm.Calls = append(mm.Calls, mgen.Call{Pkg: pkg, Node: node, Func: cd.callee})
 			}
@@ -258,7 +273,18 @@ func gen(t *rapid.T) Case {
 	default:
 		filter = pick("f1") + "," + pick("f2") + "," + pick("f3")
 	}
-	return Case{Model: m, Identifiers: ids, Filter: filter, MergeHeader: mergeHeader, MergePackage: mergePackage}
+	c := Case{Model: m, Identifiers: ids, Filter: filter, MergeHeader: mergeHeader, MergePackage: mergePackage}
+	if rapid.IntRange(0, 2).Draw(t, "secondFilter") > 0 {
+		c.Filter2 = pick("g1")
+		if rapid.Bool().Draw(t, "secondFilterList") {
+			c.Filter2 += "," + pick("g2")
+		}
+	}
+	c.OmitX = filter == "" && rapid.Bool().Draw(t, "omitX")
+	if rapid.IntRange(0, 3).Draw(t, "depsElsewhere") == 3 {
+		c.DepsPath = rapid.SampledFrom([]string{"deps.json", "out/model.json", "coca_reporter/other.json"}).Draw(t, "depsPath")
+	}
+	return c
 }
 
 // ---- reference model -----------------------------------------------------------------------
@@ -850,6 +876,14 @@ func check(c Case) pbt.Verdict {
 	if msg := compareGraph("Analysis", g, ref.nodes, ref.edges, ref.edges); msg != "" {
 		return pbt.Fail("%s", msg)
 	}
+	// 1b. a second analysis of the same model in the same process gives the same graph
+	var g2 *tequila.FullGraph
+	if p := pbt.Call(func() { g2 = arch.NewArchApp().Analysis(deps, ids) }); p != "" {
+		return pbt.Fail("second Analysis of the same model panicked: %s", p)
+	}
+	if msg := compareGraph("second Analysis of the same model", g2, ref.nodes, ref.edges, ref.edges); msg != "" {
+		return pbt.Fail("%s", msg)
+	}
 	// 2. MergeHeaderFunc is "strip the last dotted segment"
 	var probe []string
 	for n := range ref.nodes {
@@ -866,6 +900,18 @@ func check(c Case) pbt.Verdict {
 		}
 		if got != stripLast(s) {
 			return pbt.Fail("MergeHeaderFunc(%q) = %q, want %q (last dotted segment stripped)", s, got, stripLast(s))
+		}
+		// MergePackageFunc is taken as given, but it has to be a function of the name (the same
+		// answer when asked again) that maps a dotted name to a package above it
+		var p1, p2 string
+		if p := pbt.Call(func() { p1 = tequila.MergePackageFunc(s); p2 = tequila.MergePackageFunc(s) }); p != "" {
+			return pbt.Fail("MergePackageFunc(%q) panicked: %s", s, p)
+		}
+		if p1 != p2 {
+			return pbt.Fail("MergePackageFunc(%q) = %q, and %q when asked again", s, p1, p2)
+		}
+		if strings.Contains(s, ".") && !strings.HasPrefix(s, ".") && (p1 == "" || !strings.HasPrefix(s, p1+".")) {
+			return pbt.Fail("MergePackageFunc(%q) = %q, which is not a package that contains it", s, p1)
 		}
 	}
 	// 3. both merges are the quotient without self-loops
@@ -919,6 +965,25 @@ func check(c Case) pbt.Verdict {
 	if msg := checkDot(text, nodes, req, alw, filters, !merged); msg != "" {
 		return pbt.Fail("%s\nfilter %q, merged=%v\n%s", msg, c.Filter, merged, showDot(text))
 	}
+	// 5. the same graph laid out again: with another filter, then with the first one once more
+	for i, f := range []string{c.Filter2, c.Filter} {
+		fl := strings.Split(f, ",")
+		inc := func(key string) bool {
+			for _, x := range fl {
+				if strings.Contains(key, x) {
+					return true
+				}
+			}
+			return false
+		}
+		var again string
+		if p := pbt.Call(func() { again = "di" + result.ToMapDot(inc).String() }); p != "" {
+			return pbt.Fail("ToMapDot (layout %d of the same graph) panicked: %s", i+2, p)
+		}
+		if msg := checkDot(again, nodes, req, alw, fl, !merged); msg != "" {
+			return pbt.Fail("layout %d of the same graph (filters %q, then %q, then %q): %s\nmerged=%v\n%s", i+2, c.Filter, c.Filter2, c.Filter, msg, merged, showDot(again))
+		}
+	}
 	return classify(c, ref, nodes, req, filters)
 }
 
@@ -954,11 +1019,33 @@ func classify(c Case, ref reference, shownNodes map[string]bool, shownReq map[pa
 			depth = d
 		}
 	}
-	add(fmt.Sprintf("max_package_depth=%d", depth))
+	if depth > 4 {
+		add("max_package_depth>=5")
+	} else {
+		add(fmt.Sprintf("max_package_depth=%d", depth))
+	}
+	cut := false
+	for n := range ref.nodes {
+		if strings.Count(n, ".") >= 7 {
+			cut = true
+		}
+	}
+	if cut {
+		add("type_name_of_more_than_7_segments")
+	}
+	if c.Filter2 != "" {
+		add("second_layout_with_another_filter")
+	}
+	if c.OmitX && c.Filter == "" {
+		add("cli_without_-x")
+	}
+	if c.DepsPath != "" {
+		add("cli_with_-d")
+	}
 	if len(c.Identifiers) < len(c.Model.Classes) {
 		add("identifier_map_strict_subset")
 	}
-	self, hasMain, mainMethod, sub := false, false, false, false
+	self, hasMain, mainMethod, sub, iface := false, false, false, false, false
 	for p := range ref.edges {
 		if p.From == p.To {
 			self = true
@@ -967,8 +1054,11 @@ func classify(c Case, ref reference, shownNodes map[string]bool, shownReq map[pa
 	for _, cl := range c.Model.Classes {
 		if cl.Name == "Main" {
 			hasMain = true
-		} else if strings.Contains(cl.Name, "Main") {
+		} else if strings.Contains(cl.Name, "Main") || cl.Name == "main" {
 			sub = true
+		}
+		if cl.Type == "Interface" {
+			iface = true
 		}
 		for _, m := range cl.Methods {
 			if m.Name == "main" && len(m.Calls) > 0 {
@@ -987,6 +1077,9 @@ func classify(c Case, ref reference, shownNodes map[string]bool, shownReq map[pa
 	}
 	if mainMethod {
 		add("main_method_with_calls")
+	}
+	if iface {
+		add("interface_type")
 	}
 	// quotient facts
 	_, hreq, _ := ref.quotient(tequila.MergeHeaderFunc)
@@ -1066,8 +1159,18 @@ func checkCLI(c Case) pbt.Verdict {
 		idl = []core_domain.CodeDataStruct{}
 	}
 	idents, _ := json.Marshal(idl)
-	cli.WriteTree(dir, map[string]string{"coca_reporter/deps.json": string(deps), "coca_reporter/identify.json": string(idents)})
-	args := []string{"arch", "-x", c.Filter}
+	depsPath := "coca_reporter/deps.json"
+	if c.DepsPath != "" {
+		depsPath = c.DepsPath
+	}
+	cli.WriteTree(dir, map[string]string{depsPath: string(deps), "coca_reporter/identify.json": string(idents)})
+	args := []string{"arch"}
+	if !(c.OmitX && c.Filter == "") {
+		args = append(args, "-x", c.Filter)
+	}
+	if c.DepsPath != "" {
+		args = append(args, "-d", c.DepsPath)
+	}
 	if c.MergeHeader {
 		args = append(args, "-H")
 	}
@@ -1105,11 +1208,11 @@ func checkCLI(c Case) pbt.Verdict {
 
 func init() {
 	pbt.SetProperty("C13")
-	pbt.Describe("rapid-generated code models: 1-7 types over 1-4 packages of depth 1-4 whose segments come from {a, ab, bc, c, b, abc} (so that different package pairs concatenate to the same string), type names incl. Main, MainFrame, Domain; per type an optional Extend, 0-2 Implements, 0-3 field calls (Type \"field\") and 0-3 methods (names incl. main, mainLoop, remain) with 0-3 calls; every reference targets a project type, the own type, an external type (java.util.List ...), an undeclared type in a project package, or a bare name; identifier map = all project types or a strict subset; -x filter (empty, segment, 'seg.', '.Name', full type name, package, no match, two-element lists); merge mode none / -H / -P / -H -P. Oracle: reference node set N (types not named Main) and edge set E computed from the abstract model as the statement defines it (calls count only for methods not named main, callee type in the identifier map and different from the caller's type); Analysis: NodeList == N and RelationList restricted to NxN == E; MergeHeaderFile with MergeHeaderFunc and with MergePackageFunc on every case: nodes == f(N), relations between result nodes contain {(fA,fB) | (A,B) in E, fA != fB} and nothing outside the image of the model's dependencies; MergeHeaderFunc == strip last dotted segment; DOT (\"di\"+ToMapDot(filter).String(), and coca_reporter/arch.dot of the real `coca arch` in the cli sub-check): accepted by a strict structural reader and by gographviz with equal node/cluster counts, every leaf is an included node shown once with its cluster-label chain == package path, every included type shown, every edge joins two declared leaves and is a reference relation, every reference relation between two shown nodes is drawn. Non-trivial = at least one relation to a non-project type and one between project types and >= 2 packages; distinct = hash of (N, all dependencies, filter, mode).",
+	pbt.Describe("rapid-generated code models: 1-7 types (classes and interfaces) over 1-5 packages of depth 1-8 whose segments come from {a, ab, bc, c, b, abc} (so that different package pairs concatenate to the same string; one model in six puts its packages below a common stem of 5-6 segments, so that full type names have 7-9 segments, the lengths around MergePackageFunc's cut at 7), type names incl. Main, MainFrame, AppMain, main, Domain; per type an optional Extend, 0-2 Implements, 0-3 field calls (Type \"field\") and 0-3 methods (names incl. main, mainLoop, remain) with 0-3 calls; every reference targets a project type, the own type, an external type (java.util.List ...), an undeclared type in a project package, or a bare name (as a call receiver: empty, or a type name without package); identifier map = all project types or a strict subset; -x filter (empty, segment, 'seg.', '.Name', full type name, package, no match, two-element lists); merge mode none / -H / -P / -H -P. Oracle: reference node set N (types not named Main) and edge set E computed from the abstract model as the statement defines it (calls count only for methods not named main, callee type in the identifier map and different from the caller's type); Analysis: NodeList == N and RelationList restricted to NxN == E; MergeHeaderFile with MergeHeaderFunc and with MergePackageFunc on every case: nodes == f(N), relations between result nodes contain {(fA,fB) | (A,B) in E, fA != fB} and nothing outside the image of the model's dependencies; MergeHeaderFunc == strip last dotted segment; MergePackageFunc (otherwise taken as given) gives the same answer when asked again and maps a dotted name to a dotted prefix of it; a second Analysis of the same model gives the same graph; the graph the CLI would lay out is laid out three times (-x filter, a second drawn filter, the first filter again) and each DOT is judged on its own; DOT (\"di\"+ToMapDot(filter).String(), and coca_reporter/arch.dot of the real `coca arch` in the cli sub-check): accepted by a strict structural reader and by gographviz with equal node/cluster counts, every leaf is an included node shown once with its cluster-label chain == package path, every included type shown, every edge joins two declared leaves and is a reference relation, every reference relation between two shown nodes is drawn. the cli sub-check passes -x, or leaves it out when the filter is empty, and in one case of four puts deps.json elsewhere and names it with -d. Non-trivial = at least one relation to a non-project type and one between project types and >= 2 packages; distinct = hash of (N, all dependencies, filter, mode).",
 		"'project type' for a call is membership in the identifier map, as the code and DESIGN.md define it; when the identifier map is a strict subset, calls to types outside it are expected to give no edge",
 		"a dependency on a type outside N whose merged name equals a merged node (e.g. an undeclared type in a project package) may or may not appear as a relation of the merged graph: allowed, not required",
 		"for merged graphs (-H/-P) a node that is a dotted prefix of another included node (package a next to a.b) is not required to be displayed: the display clause of the statement speaks of types; observed: such a package is drawn as a cluster only and its relations are not drawn",
-		"names contain no quote, backslash, slash or '->'; every type has a non-empty package (depth 1-4)")
+		"names contain no quote, backslash, slash or '->'; every type has a non-empty package (depth 1-8)")
 	pbt.Register("graph", 3000, 30000, gen, check)
 	pbt.Register("cli", 120, 600, gen, checkCLI)
 }
